@@ -92,7 +92,9 @@ namespace chaiscript {
       }
 
       inline Boxed_Value clone_if_necessary(Boxed_Value incoming, std::atomic_uint_fast32_t &t_loc, const chaiscript::detail::Dispatch_State &t_ss) {
-        if (!incoming.is_return_value()) {
+        // a fresh temporary returned by value may be adopted as it is - but only while nothing else refers to it:
+        // once it has been bound to a parameter or captured, the flag is stale and the value must be copied like any named one
+        if (!(incoming.is_return_value() && incoming.is_unique_handle())) {
           if (incoming.get_type_info().is_arithmetic()) {
             return Boxed_Number::clone(incoming);
           } else if (incoming.get_type_info().bare_equal_type_info(typeid(bool))) {
